@@ -3,7 +3,7 @@ import hashlib
 from harness.common import Case, hx, unhx, Fields, toks_str
 from harness import gen as G
 
-KINDS = 'ms'
+KINDS = 'gms'
 RULE = ('all-random 20-byte hashes incl. 1..20 leading zero bytes, networks mainnet/testnet/regtest/signet, P2PKH and P2SH: address string vs '
         'Base58Check Spec, decode back, construction from address; rejection stream: every kind of single-character substitution (sampled over '
         'positions and symbols), other type / other network version byte, valid-checksum payloads of 19 and 21 bytes, characters outside the '
@@ -41,24 +41,24 @@ def cases(ctx):
         if h == bytes(20) and ty == 'p2pkh' and net == 'mainnet': continue      # the one payload outside the code's 26..35 window (25 chars)
         s_ = b58c(prefix(ty, net) + h)
         ctx.count(f'edge-len-{len(s_)}')
-        yield Case(f'b58_addr {np(ty, net)} {hx(h)}', 'ms', nontrivial=True, tag='edge')
-        yield Case(f'b58_accept {np(ty, net)} {sh(s_)}', 'ms', nontrivial=True, tag='edge-accept')
+        yield Case(f'b58_addr {np(ty, net)} {hx(h)}', 'gms', nontrivial=True, tag='edge')
+        yield Case(f'b58_accept {np(ty, net)} {sh(s_)}', 'gms', nontrivial=True, tag='edge-accept')
     for h in hashes:
         ty = rng.choice(['p2pkh', 'p2sh']); net = rng.choice(NETS)
         nt = h[0] == 0 or net != 'testnet'
         ctx.count(f'addr-{ty}-{net}')
-        yield Case(f'b58_addr {np(ty, net)} {hx(h)}', 'ms', nontrivial=nt, tag='addr')
+        yield Case(f'b58_addr {np(ty, net)} {hx(h)}', 'gms', nontrivial=nt, tag='addr')
         if rng.random() < 0.3:      # the same object again on another network
             net2 = rng.choice([n for n in NETS if n != net])
-            yield Case(f'b58_addr {np(ty, net2)} {hx(h)}', 'ms', nontrivial=True, tag='addr-other-net')
+            yield Case(f'b58_addr {np(ty, net2)} {hx(h)}', 'gms', nontrivial=True, tag='addr-other-net')
         s = b58c(prefix(ty, net) + h)
-        yield Case(f'b58_accept {np(ty, net)} {sh(s)}', 'ms', nontrivial=nt, tag='accept-valid')
+        yield Case(f'b58_accept {np(ty, net)} {sh(s)}', 'gms', nontrivial=nt, tag='accept-valid')
         if rng.random() < 0.4:
             # the very same string, just accepted above, offered to the other address type and on another network
             oty = 'p2sh' if ty == 'p2pkh' else 'p2pkh'
             onet = rng.choice([n for n in NETS if prefix(ty, n) != prefix(ty, net)])
-            yield Case(f'b58_accept {np(oty, net)} {sh(s)}', 'ms', nontrivial=True, tag='reject-same-string-other-type')
-            yield Case(f'b58_accept {np(ty, onet)} {sh(s)}', 'ms', nontrivial=True, tag='reject-same-string-other-net')
+            yield Case(f'b58_accept {np(oty, net)} {sh(s)}', 'gms', nontrivial=True, tag='reject-same-string-other-type')
+            yield Case(f'b58_accept {np(ty, onet)} {sh(s)}', 'gms', nontrivial=True, tag='reject-same-string-other-net')
     for _ in range(ctx.n(120, 5000)):
         ty = rng.choice(['p2pkh', 'p2sh']); net = rng.choice(NETS); h = G.rbytes(rng, 20)
         if rng.random() < 0.2: h = bytes(rng.randrange(1, 4)) + h[3:] + b'\x01\x02\x03'[:0]
@@ -96,7 +96,7 @@ def cases(ctx):
         muts.append(('len%d' % rng.randrange(25, 37), ''.join(rng.choice(ALPH) for _ in range(rng.randrange(25, 37)))))
         for kind, m in muts:
             ctx.count('reject-' + kind)
-            yield Case(f'b58_accept {np(ty, net)} {sh(m)}', 'ms', nontrivial=True, tag='reject-' + kind)
+            yield Case(f'b58_accept {np(ty, net)} {sh(m)}', 'gms', nontrivial=True, tag='reject-' + kind)
     # addresses from public keys
     from bitcoinutils.keys import PrivateKey
     for d in [d for _, d in G.telling_secrets()] + [rng.randrange(1, 2 ** 255) for _ in range(ctx.n(25, 800))]:
